@@ -167,6 +167,22 @@ def _rand_mdp(labels, alabels, rep, seed, **kw):
     return b.mdp
 
 
+def _rand_mdp_mixdyn(seed):
+    """String-labelled member of the random family whose transition distributions are built as
+    mixtures with the `|` operator: intended move (3/4) | uniform slip over the successors of the
+    state's first action (1/4)."""
+    from msdm.core.mdp import QuickTabularMDP
+    from msdm.core.distributions import DictDistribution
+    base = _rand_mdp("str", "str", "quick", seed)
+
+    def nsd(s, a):
+        slip = list(base.next_state_dist(s, base.actions(s)[0]).support)
+        return base.next_state_dist(s, a) * 0.75 | DictDistribution.uniform(slip) * 0.25
+    return QuickTabularMDP(next_state_dist=nsd, reward=base.reward, actions=base.actions,
+                           initial_state_dist=base.initial_state_dist, is_absorbing=base.is_absorbing,
+                           discount_rate=base.discount_rate)
+
+
 def _rand_mdp_fset(seed):
     """Member of the random family whose states contain sets of strings: even states are
     frozensets of three strings, odd states tuples holding such a frozenset (explicit lists,
@@ -336,6 +352,7 @@ PROBLEMS = {
     "gridworld_single": (lambda k: _gridworld(k, 1.0, 1.0, single=True), dict(lk="str", shape="unsortable-labels", multi=0)),
     "graph_str": (lambda k: _graph("str", 5 + k), dict(lk="str", shape="str-labels", multi=0)),
     "graph_stored": (lambda k: _graph("str", 7 + k, stored=True), dict(lk="str", shape="str-labels", multi=0)),
+    "mdp_mixdyn": (lambda k: _rand_mdp_mixdyn(18 + 100 * k), dict(lk="str", shape="str-labels", multi=1)),
     "mdp_fset": (lambda k: _rand_mdp_fset(17 + 100 * k), dict(lk="str", shape="set-of-str-labels", multi=1)),
     "graph_tuple": (lambda k: _graph("tuple", 6 + k), dict(lk="int", shape="int-labels", multi=0)),
     "romania": (lambda k: __import__("msdm.tests.domains", fromlist=["x"]).RomaniaSubsetAIMA(),
@@ -632,6 +649,11 @@ def _mdp_policy(mdp, kind):
             w = [i + 1 for i in range(len(aa))]
             return DictDistribution({a: x / sum(w) for a, x in zip(aa, w)})
         return FunctionalPolicy(f)
+    if kind == "epsgreedy":     # mixture built with the `|` operator: greedy * (1 - eps) | uniform * eps
+        def g(s):
+            aa = list(mdp.actions(s))
+            return DictDistribution.deterministic(aa[-1]) * 0.6 | DictDistribution.uniform(aa) * 0.4
+        return FunctionalPolicy(g)
     from msdm.algorithms import ValueIteration
     key = ("vi", id(mdp))
     if key not in _PCACHE:
@@ -842,6 +864,11 @@ def make_plan(tier, seed):
             C("Rollout", s("gridworld"), policy="vi"), C("Rollout", s("mdp_int")),
             C("Rollout", s("mdp_tuple"), policy="vi"), C("Rollout", s("mdp_str_single"), policy="skewed"),
             C("Evaluate", s("mdp_str")), C("Evaluate", s("gridworld")), C("Evaluate", s("mdp_int"), policy="skewed"),
+            C("Rollout", s("mdp_str"), policy="epsgreedy"), C("Rollout", s("mdp_tuple"), policy="epsgreedy"),
+            C("Evaluate", s("mdp_str2"), policy="epsgreedy"), C("Rollout", s("gridworld"), policy="epsgreedy"),
+            C("Rollout", s("mdp_mixdyn")), C("Rollout", s("mdp_mixdyn"), policy="epsgreedy"),
+            C("LRTDP", s("mdp_mixdyn")), C("TD", s("mdp_mixdyn"), cls="QLearning"),
+            C("TD", s("mdp_mixdyn"), cls="ExpectedSARSA", eps=0.3),
             C("POMDPRollout", s("pomdp_str")), C("POMDPRollout", s("pomdp_str"), policy="qmdp"),
             C("POMDPRollout", s("pomdp_str"), given=1),
         ]
